@@ -11,6 +11,9 @@ Inv_NoException == Returned
 Inv_Concat == Returned => Concat(Obs[i].text, Obs[i].segs)
 Inv_Fits == Returned => Fits(Obs[i].segs, Obs[i].width)
 Inv_ArticleGlued == Returned /\ Concat(Obs[i].text, Obs[i].segs) => ArticleGlued(Obs[i].text, Obs[i].segs)
+\* the result is a function of (text, width) alone: a second call, made after the caller modified the first result,
+\* returns the same segments (and therefore still preserves the text)
+Inv_RepeatableCall == Returned => Obs[i].segs2 = Obs[i].segs
 \* non-vacuity counters (evaluated once, printed)
 NonTrivial(n) == \/ GluePairs(Obs[n].text) # {} /\ Len(Obs[n].segs) > 1
                  \/ \E s \in 1..Len(Obs[n].segs) : Len(Obs[n].segs[s]) > Obs[n].width
